@@ -28,6 +28,8 @@ def twin(v, mapping):
 
 
 def run(chk, repo, tier):
+    from .common import no_hidden_state
+    no_hidden_state(chk, repo, 'C15')
     chk.clause('C15-a', 'the grid stays strictly increasing: three validations dominate the store; every grid write goes through the setter', 5)
     chk.clause('C15-b', 'one value per wavelength: wave and value are updated together with twin right-hand sides', 6)
     chk.clause('C15-c', 'retained samples are not altered: selections / stacking of the original arrays only', 5)
@@ -278,6 +280,25 @@ def run(chk, repo, tier):
                okl and n > 0, '', fb.loc())
         chk.ob('C15-e', 'N-identity', fb.key, f'power preservation rescales all bins by integrate(min, max)/sum(bins) [{label}]',
                okp and n > 0, '', fb.loc())
+    # bin edges: midpoints between centres; end treatment symmetric (half a step outwards) or inside (the end centres)
+    wv = S('wave')
+    dx = nf.app('diff', wv) / 2
+    mid = nf.index(wv, Slice(C(0), C(-1))) + dx
+    first, last = nf.index(wv, C(0)), nf.index(wv, C(-1))
+    for ends_cfg, label, lo_e, hi_e in ((Const('symmetric'), 'symmetric', first - nf.index(dx, C(0)), last + nf.index(dx, C(-1))),
+                                        (Const('inside'), 'inside', first, last)):
+        _, pe, _ = analyse(repo, fb, config={'interp_method': Const('trapz'), 'ends': ends_cfg, 'preserve_power': FALSE,
+                                             'waveunit': nf.attr(SELF, 'waveunit')})
+        oke, det = False, ''
+        for p in returns(pe):
+            smp = p.calls(f'{SPEC}.sample')
+            if len(smp) != 1:
+                continue
+            x = smp[0].bound.get('wave')
+            want = nf.app('concatenate', Tup([Tup([lo_e], 'list'), mid, Tup([hi_e], 'list')], 'list'))
+            oke = x == want
+            det = f'edges = {fmt(x)[:220]}'
+        chk.ob('C15-f', 'N-formula', fb.key, f'trapezoid bin edges are the midpoints, ends={label}', oke, det, fb.loc())
     _, pb, _ = analyse(repo, fb, config={'interp_method': Const('trapz'), 'preserve_power': FALSE,
                                          'waveunit': nf.attr(SELF, 'waveunit')})
     okn = all(isinstance(p.ret, Poly) and p.ret.single_atom() is not None and p.ret.single_atom()[0] == 'loop'
